@@ -624,6 +624,7 @@ static std::string gen_c18(uint64_t seed, uint64_t idx, bool thorough) {
     if (!fault_free && (scen == "hello" || scen == "vss") && r.chance(0.08)) fault += r.range(62, 150) * 1000000000ULL;
     // "flood" flavour: one datagram is sent thousands of times at line rate (sequence number and timestamp advancing)
     uint64_t flood_n = (!fault_free && r.chance(0.04)) ? r.range(2000, 20000) : 0, flood_dt = r.range(20000, 60000);
+    if (flood_n && scen == "can" && r.chance(0.3)) flood_n = r.range(66000, 70000);  // past what 16-bit counters of datagrams hold
     if (flood_n && (scen == "crfL" || scen == "crfT") && r.chance(0.7)) flood_n = r.range(17000, 24000);  // more than twice the nominal 8000 packets per second, for more than a second
     if (flood_n) fault += flood_n * flood_dt;
     uint64_t t1 = warm, t2 = warm + fault, t3 = t2 + quiet;
